@@ -1,5 +1,6 @@
 """C08 — component decoders are safe on arbitrary bytes and respect capacities."""
 from e2 import E2
+from e1 import E1
 FILES = ['src/thrift/thrift_decode.c', 'src/thrift/parquet_types.c', 'src/encoding/rle.c', 'src/encoding/plain.c', 'src/encoding/delta.c',
          'src/encoding/delta_length.c', 'src/encoding/delta_strings.c', 'src/encoding/dictionary.c', 'src/encoding/byte_stream_split.c',
          'src/core/bitpack.c', 'src/core/buffer.h', 'src/compression/snappy.c', 'src/compression/lz4.c', 'src/compression/gzip.c', 'src/compression/zstd.c']
@@ -65,4 +66,7 @@ def obligations(tier):
         o.append(dec('%s-wrapper' % nm, 15, 4, ['src/compression/%s.c' % nm], ['-DCODEC=%d' % c, '-DCAP=8'], 'capacity 0..8 symbolic; libzstd = contract stub (arbitrary status, arbitrary output within capacity)', timeout=300,
                      stubs=['ZSTD_decompressDCtx/ZSTD_createDCtx/ZSTD_isError: contract stubs'], leaks=False,
                      assumptions=['the thread-local cached ZSTD_DCtx is a deliberate cache, not a leak (leak check off for this obligation)']))
+    # E1 (CBMC) half: Snappy/LZ4 decompressors on all inputs of L bytes with symbolic capacity (longer inputs than E2 reaches)
+    from props import C08_e1
+    o += C08_e1.obligations(tier)
     return o
